@@ -178,7 +178,9 @@ def oracle_real(spec: Dict[str, Any], res: Dict[str, Any]) -> List[str]:
             continue
         if not (p["yield"] < p["task_start"] < p["task_end"] < p["ack"]):
             v.append(f"message {tok}: order of events is {sorted(p, key=p.get)} (expected yield, task_start, task_end, ack)")
-        if bs is not None and p["ack"] > bs:
+        if bs is not None and p["ack"] > bs and spec.get("W") is None:
+            # (with a wait timeout, an execution that was still unfinished when it elapsed is abandoned: it may end - and
+            # acknowledge - while the process is already shutting the broker down)
             v.append(f"message {tok} was acknowledged after the broker had been shut down")
     if bs is None:
         v.append("the broker was never shut down")
